@@ -165,7 +165,12 @@ class Contract:
 
     def __init__(self, func, requires=(), ensures=(), loops=None, float_mode="R", bind=None,
                  ghost=None, lemmas=(), modifies=None, defs=(), name=None, checks=("bounds", "overflow", "narrow", "divzero"),
-                 assume_types=True, note="", nan_aware=False, asserts=None):
+                 assume_types=True, note="", nan_aware=False, asserts=None, py_mode=False, inputs=None,
+                 call_facts=None, count_calls=()):
+        self.count_calls = tuple(count_calls)   # ghost counters: number of executed calls of these functions
+        self.py_mode = py_mode          # Python glue: unknown expressions are opaque instead of fatal
+        self.inputs = inputs or {}      # py_mode: free variables of the region -> "int" | "float" | "obj"
+        self.call_facts = call_facts or {}   # "<dotted call>": [spec facts assumed about its result `result`]
         self.nan_aware = nan_aware
         self.asserts = asserts or {}     # {"<statement source>[#n]": [spec, ...]} checked before it runs
         self.func = func
@@ -452,9 +457,19 @@ class Exec:
     def ev(self, n):
         m = getattr(self, "ev_" + type(n).__name__, None)
         if m is None:
+            if self.c.py_mode:
+                for ch in ast.iter_child_nodes(n):
+                    if isinstance(ch, ast.expr):
+                        self.ev(ch)
+                return Val("obj", None, OBJ)
             raise Undecidable(f"expression {type(n).__name__}: {src_of(n)}")
         if getattr(n, "orig_line", None):
             self.cur_line = n.orig_line
+        if self.c.py_mode and not self.spec_mode:
+            try:
+                return m(n)
+            except Undecidable:
+                return Val("obj", None, OBJ)
         return m(n)
 
     def ev_Constant(self, n):
@@ -501,6 +516,16 @@ class Exec:
         if name in self.types:
             # declared but unassigned C variable: arbitrary value of its type
             v = self.havoc_scalar(name, self.types[name])
+            self.vars[name] = v
+            return v
+        if self.c.py_mode:
+            kind = self.c.inputs.get(name, "obj")
+            if kind == "int":
+                v = Val("int", z3.Int(name), PYINT)
+            elif kind == "float":
+                v = Val("float", z3.Const(name, self.fm.F), PYFLOAT)
+            else:
+                v = Val("obj", None, OBJ)
             self.vars[name] = v
             return v
         raise Undecidable(f"unknown name {name}")
@@ -857,6 +882,13 @@ class Exec:
             return self.rand_index(self.to_int(self.ev(other)))
         fn = self.fname(n.func)
         if fn is None:
+            if self.c.py_mode:
+                d = None
+                try:
+                    d = ast.unparse(n.func)
+                except Exception:
+                    pass
+                return self.opaque_call(d or "<call>", n)
             m = self.ev(n.func)
             if m.k == "method":
                 return self.method_call(m.t[0], m.t[1], n)
@@ -877,6 +909,13 @@ class Exec:
             x = self.to_float(self.ev(n.args[0]))
             f = z3.Function("uf_" + fn.replace(".", "_"), self.fm.F, self.fm.F)
             return Val("float", f(x), PYFLOAT)
+        if fn in ("np.ceil", "math.ceil", "ceil"):
+            v = self.ev(n.args[0])
+            if v.k != "float":
+                return v
+            if self.fm.mode == "R":
+                return Val("float", z3.ToReal(-z3.ToInt(-v.t)), PYFLOAT)
+            return Val("float", self.fresh("ceil", self.fm.F), PYFLOAT)
         if fn in ("floor", "np.floor", "math.floor"):
             v = self.ev(n.args[0])
             if v.k != "float":
@@ -884,6 +923,15 @@ class Exec:
             if self.fm.mode == "R":
                 return Val("float", z3.ToReal(z3.ToInt(v.t)), PYFLOAT)
             return Val("float", self.fm.fn["floor"](v.t), PYFLOAT)
+        if fn in ("min", "max") and self.c.py_mode:
+            vs0 = [self.ev(a) for a in n.args]
+            if any(v.k not in ("int", "float", "bool") for v in vs0):
+                # some operand is opaque: the result is only known to dominate / be dominated by the others
+                known = [v for v in vs0 if v.k in ("int", "bool")]
+                r = self.fresh(fn)
+                for v in known:
+                    self.assume(r >= self.to_int(v) if fn == "max" else r <= self.to_int(v))
+                return Val("int", r, PYINT) if known and len(known) == len([v for v in vs0 if v.k != "obj"]) else Val("obj", None, OBJ)
         if fn in ("min", "max"):
             vs = [self.ev(a) for a in n.args]
             acc = vs[0]
@@ -902,6 +950,8 @@ class Exec:
             return acc
         if fn == "int":
             v = self.ev(n.args[0])
+            if v.k == "obj" and self.c.py_mode:
+                return Val("int", self.fresh("int"), PYINT)
             if v.k == "float":
                 return self.f2i(v, n)
             return Val("int", self.to_int(v), v.ty if v.k == "int" else PYINT, v.extra)
@@ -962,7 +1012,59 @@ class Exec:
         # user function: inline helper or contract
         if fn in self.mod.get("funcs", {}) or fn in self.mod.get("externs", {}) or fn in self.mod.get("cfuncs", {}):
             return self.user_call(fn, n)
+        if self.c.py_mode:
+            return self.opaque_call(fn, n)
         raise Undecidable(f"call to {fn}")
+
+    def opaque_call(self, fn, n):
+        """py_mode: a call into code outside the region.  Arguments are evaluated; assertions keyed
+        `call:<name>` are checked with arg0.. / kw_<name> bound; `call_facts` give what is assumed
+        about the result (an assumed contract of a dependency, listed in the evidence)."""
+        args = [self.ev(a) for a in n.args]
+        kws = {k.arg: self.ev(k.value) for k in n.keywords if k.arg}
+        if fn in self.c.count_calls:
+            gv = "#" + fn
+            cur = self.vars.get(gv) or Val("int", z3.IntVal(0), PYINT)
+            self.vars[gv] = Val("int", cur.t + 1, PYINT)
+        key = "call:" + fn
+        if any(k.split("#")[0] == key for k in self.c.asserts):
+            cnt = self.labels.get(("stmtcnt", key), 0) + 1
+            self.labels[("stmtcnt", key)] = cnt
+            kk = key if cnt == 1 and key in self.c.asserts else f"{key}#{cnt}"
+            saved_b = dict(self.bound_vars)
+            for i, a in enumerate(args):
+                self.bound_vars[f"arg{i}"] = a
+                if a.k == "tuple":
+                    for q, e in enumerate(a.t):
+                        self.bound_vars[f"arg{i}_{q}"] = e
+            for k, v in kws.items():
+                self.bound_vars["kw_" + k] = v
+            for a in self.c.asserts.get(kk, []):
+                f = self.spec(a)
+                self.oblige("assert", f"at {kk} `{src_of(n)[:80]}`: {a}", f, n)
+            self.bound_vars = saved_b
+        facts = self.c.call_facts.get(fn)
+        if facts:
+            arity = facts.get("returns", 1)
+            if arity == 1:
+                res = self.havoc_scalar("ret", scalar_type("long")) if facts.get("type") == "int" else Val("obj", None, OBJ)
+            else:
+                res = Val("tuple", [self.havoc_scalar(f"ret{q}", scalar_type("long")) if t == "int" else Val("obj", None, OBJ)
+                                    for q, t in enumerate(facts["types"])])
+            saved_b = dict(self.bound_vars)
+            self.bound_vars["result"] = res
+            if res.k == "tuple":
+                for q, e in enumerate(res.t):
+                    self.bound_vars[f"result_{q}"] = e
+            for i, a in enumerate(args):
+                self.bound_vars[f"arg{i}"] = a
+            for k, v in kws.items():
+                self.bound_vars["kw_" + k] = v
+            for ftxt in facts.get("ensures", []):
+                self.assume(self.spec(ftxt))
+            self.bound_vars = saved_b
+            return res
+        return Val("obj", None, OBJ)
 
     def f2i(self, v, node):
         """C cast double -> integer (truncation); out-of-range is undefined behaviour."""
@@ -1258,6 +1360,10 @@ class Exec:
                 self.cur_line = s.orig_line
             m = getattr(self, "st_" + type(s).__name__, None)
             if m is None:
+                if self.c.py_mode:
+                    names, arrays = self.modified([s])
+                    self.havoc(names, arrays, [s])
+                    continue
                 raise Undecidable(f"statement {type(s).__name__}")
             if self.c.asserts and isinstance(s, (ast.Assign, ast.AugAssign)):
                 tg = s.targets[0] if isinstance(s, ast.Assign) else s.target
@@ -1271,7 +1377,13 @@ class Exec:
                     sm = self.spec_mode
                     self.spec_mode = True
                     for qi, it in enumerate(self.index_list(tg.slice)):
-                        self.bound_vars[f"idx{qi}"] = self.ev(it)
+                        if isinstance(it, ast.Slice):
+                            if it.lower is not None:
+                                self.bound_vars[f"lo{qi}"] = self.ev(it.lower)
+                            if it.upper is not None:
+                                self.bound_vars[f"hi{qi}"] = self.ev(it.upper)
+                        else:
+                            self.bound_vars[f"idx{qi}"] = self.ev(it)
                     self.spec_mode = sm
                     for a in self.c.asserts.get(kk, []):
                         f = self.spec(a)
@@ -1291,6 +1403,12 @@ class Exec:
     def st_Pass(self, s):
         pass
 
+    def st_Delete(self, s):
+        pass
+
+    def st_With(self, s):
+        self.block(s.body)
+
     def st_Expr(self, s):
         if isinstance(s.value, ast.Constant):
             return
@@ -1298,7 +1416,7 @@ class Exec:
             fn = self.fname(s.value.func)
             if fn == "print":
                 return
-            if fn is None and isinstance(s.value.func, ast.Attribute):
+            if fn is None and isinstance(s.value.func, ast.Attribute) and not self.c.py_mode:
                 recv = self.ev(s.value.func.value)
                 if recv.k == "obj":
                     for a in s.value.args:
@@ -1329,6 +1447,10 @@ class Exec:
                 # unpacking a row of length != len(targets) raises ValueError (allowed rejection)
                 self.assume(a.shape[d] == len(tgt.elts))
                 val = Val("tuple", [self.elem_val(a, self.select(a, idx + [z3.IntVal(q)]), idx + [z3.IntVal(q)]) for q in range(len(tgt.elts))])
+            if self.c.py_mode and (val.k != "tuple" or len(val.t) != len(tgt.elts)):
+                for t in tgt.elts:
+                    self.assign_target(t, Val("obj", None, OBJ), node)
+                return
             if val.k != "tuple" or len(val.t) != len(tgt.elts):
                 raise Undecidable("tuple assignment arity")
             for t, v in zip(tgt.elts, val.t):
@@ -1371,7 +1493,7 @@ class Exec:
                             z3.And(i >= 0, i < a.shape[0]), tgt)
                 self.store(a, [i], self.elem_store(a, val, tgt))
                 return
-            if base.k == "obj":
+            if base.k == "obj" or self.c.py_mode:
                 return
             raise Undecidable(f"store into {base.k}")
         raise Undecidable("assignment target")
@@ -1400,10 +1522,27 @@ class Exec:
 
     def st_Assign(self, s):
         val = self.ev(s.value)
-        for tgt in reversed(s.targets) if False else s.targets:
-            self.assign_target(tgt, val, s)
+        for tgt in s.targets:
+            if self.c.py_mode:
+                try:
+                    self.assign_target(tgt, val, s)
+                except Undecidable:
+                    names, arrays = self.modified([s])
+                    self.havoc(names, arrays, [s])
+            else:
+                self.assign_target(tgt, val, s)
 
     def st_AugAssign(self, s):
+        if self.c.py_mode:
+            try:
+                return self._st_augassign(s)
+            except Undecidable:
+                names, arrays = self.modified([s])
+                self.havoc(names, arrays, [s])
+                return
+        return self._st_augassign(s)
+
+    def _st_augassign(self, s):
         if isinstance(s.target, ast.Name) and self.vars.get(s.target.id) is not None and \
                 self.vars[s.target.id].k == "arr":
             # whole-array in-place arithmetic: contents become unknown
@@ -1482,6 +1621,8 @@ class Exec:
                 elif isinstance(n, ast.Call) and isinstance(n.func, ast.Attribute) and \
                         isinstance(n.func.value, ast.Name) and n.func.attr in ("fill", "sort", "append"):
                     arrays.add(n.func.value.id)
+                elif isinstance(n, ast.Call) and self.c.count_calls and (ast.unparse(n.func) in self.c.count_calls):
+                    names.add("#" + ast.unparse(n.func))
                 elif isinstance(n, ast.Call):
                     fn = self.fname(n.func)
                     ck = self.contracts.get(fn) if fn else None
@@ -1501,6 +1642,11 @@ class Exec:
                     continue
                 a = cur.t[0]
                 self.vars[nm] = Val("ptr", (a, self.fresh(nm + "_off")), cur.ty)
+                continue
+            if nm.startswith("#"):
+                t = self.fresh("cnt")
+                self.facts.append(t >= 0)
+                self.vars[nm] = Val("int", t, PYINT)
                 continue
             if ty is None and cur is not None:
                 if cur.k in ("int", "bool"):
@@ -1798,6 +1944,11 @@ class Exec:
         if fn == "contiguous":
             v = self.ev(n.args[0])
             return self.mk_bool(self.contig_term(v.t))
+        if fn == "count":
+            gv = "#" + n.args[0].value
+            if gv not in self.vars:
+                self.vars[gv] = Val("int", z3.IntVal(0), PYINT)
+            return self.vars[gv]
         if fn == "unchanged":
             # contents of the array equal its contents on entry to the innermost enclosing loop
             v = self.ev(n.args[0])
@@ -1950,7 +2101,7 @@ _orig_ev_call = Exec.ev_Call
 
 def _ev_call_with_spec(self, n):
     fn = self.fname(n.func)
-    if fn is not None and (self.spec_mode or fn in ("shape", "extent", "old", "implies", "iff", "ite", "contiguous", "real", "isnan", "rowsum", "unchanged")):
+    if fn is not None and (self.spec_mode or fn in ("shape", "extent", "old", "implies", "iff", "ite", "contiguous", "real", "isnan", "rowsum", "unchanged", "count")):
         r = self.spec_call(fn, n)
         if r is not None:
             return r
